@@ -44,6 +44,13 @@ def noncanon_option(rng, spec):
         items = [it for it in items if 0 < len(it) <= 255]
         if rng.random() < 0.1:
             items.append(b"=" + b"novalue"[: rng.randrange(0, 7)])  # empty key: decodable
+        if items and rng.random() < 0.07:
+            # a WELL-FORMED multi-byte UTF-8 sequence inside a string (correctly framed: the length byte counts bytes): not
+            # ASCII, so the format refuses it - a decoder that accepts it must at least be able to give the same bytes back
+            i = rng.randrange(len(items))
+            if len(items[i]) < 250:
+                k = rng.randrange(len(items[i]) + 1)
+                items[i] = items[i][:k] + rng.choice(("\u00fc", "\u20ac", "Z\u00fcrich", "\U0001F600")).encode("utf-8") + items[i][k:]
         return refwire.opt_config(items, r=rng.randrange(256) if nc else 0,
                                   trailer=gen.rbytes(rng, rng.randrange(1, 6)) if nc and rng.random() < 0.5 else b"")
     return (spec[1], bytes(spec[2]))
